@@ -278,11 +278,9 @@ Proof.
   destruct (lbeq w (B "AUTH")) eqn:E1.
   { apply lbeq_eq in E1. subst w. intro H. exists args. split.
     - destruct args as [|m rest]; [injection H as <-; reflexivity|].
-      destruct (mech_of_str m); cbn [bind] in H; try discriminate.
       destruct rest as [|h r]; [injection H as <-; reflexivity|].
       destruct (hex_decode h); cbn [bind] in H; try discriminate. injection H as <-. reflexivity.
     - intros g Hg. subst cmd. destruct args as [|m rest]; [discriminate|].
-      destruct (mech_of_str m); cbn [bind] in H; try discriminate.
       destruct rest as [|h r]; [discriminate|]. destruct (hex_decode h); cbn [bind] in H; discriminate. }
   destruct (lbeq w (B "CANCEL")) eqn:E2.
   { apply lbeq_eq in E2. subst w. intro H. injection H as <-. exists args. split; [reflexivity | discriminate]. }
